@@ -99,6 +99,10 @@ def run_filter(pystog, case):
             return [o for o in call_filter(pystog, case, gr=alt_g, y=alt_y, dgr=alt_dg if with_dy else None, dy=alt_dy if with_dy else None, ff=ff) if o is not None]
         return call_filter(pystog, case, ff=ff)
     reuse.prime(call)
+    r_, q_ = np.linspace(0.0, 4.0, 9), np.linspace(0.5, 3.0, 6)
+    reuse.provoke(ff, [(n_, a_, k_) for n_ in ("g_using_F", "G_using_S", "GK_using_DCS")
+                       for a_, k_ in (((r_, np.ones(8), q_, np.ones(6), 1.5), L.kwargs_of(case["mat"])), ((r_, np.ones(9), q_, np.ones(5), 1.5), L.kwargs_of(case["mat"])),
+                                      ((r_ + 1.0, np.ones(9), q_, np.ones(6), 0.5), L.kwargs_of(case["mat"])))])
     out = call(False, None)
     res = {n: (None if o is None else o.tolist()) for n, o in zip(OUT, out)}
     msg = reuse.hold(call, [o for o in out if o is not None], "%s_using_%s" % (L.GN[case["R"]], L.RN[case["Q"]]))
